@@ -27,6 +27,13 @@ What is run
     content reachable at the declared URL (stub opener, file URL, or nothing) DIFFERS from the content of the stream
     in both directions.  The document is the content of the stream; the declared URL is never fetched by open().
     Model: OpenFlow.Given / scanInput (driver op `given`).
+(2d) schema documents fetched through an xsi:schemaLocation HINT OF AN INSTANCE (iter_errors(use_location_hints=True)): hint on
+    the root / a child / a grandchild x namespace (new, the schema's own, every namespace of the meta-schema registry) x
+    XMLSchema10 / XMLSchema11 x defuse mode x file / http target x payload (internal, external, parameter entity, external
+    subset, clean control).  When defusing applies the hinted document is never opened or refused with XMLResourceForbidden;
+    never parsed / loaded (build trace of the hinted URL, schemas and global names of the schema's and the meta-schema's
+    registries, secret / ext.dtd / resolver / socket traps).  The family stops at its first failing input (a wrongly loaded
+    document may sit in the shared meta-schema registry).
 (3) schema builds: seeded random trees of schema documents (include / import, local files and stub URLs,
     payloads from the grammar); the real sequence of open / scan / parse / failure events of every resource is
     recorded and compared with the model's `build`.
@@ -91,7 +98,8 @@ RULE = ('one case = (defuse mode, base-URL locality, input channel, payload, rol
         'other than "not defused" was taken), the prolog has a DOCTYPE, the build loaded at least one sub-resource, the '
         'script crossed the buffer edge or sought, the scan of a scan/rewind/parse sequence went beyond the buffer, the '
         'parsers reported an event or a reference was not "undefined" (event model), the file-like source was not at '
-        'position 0 when the library opened it (initial-state family); distinct by canonical JSON')
+        'position 0 when the library opened it (initial-state family), the hinted schema document was opened (instance-hint '
+        'family); distinct by canonical JSON')
 TRUSTED = ['expat calls EntityDeclHandler / UnparsedEntityDeclHandler / ExternalEntityRefHandler before it expands or '
            'fetches anything: observed on every payload (no expanded text, no fetch; resolver and opener traps silent), '
            'not proved',
@@ -942,6 +950,7 @@ def explore(ctx: Ctx, drv: Optional[Driver], full: bool) -> None:
         if drv is not None:
             witnesses(ctx, drv)
             reader_scripts(ctx, drv)
+        hint_family(ctx, R, full)
     finally:
         Obs.active = False
         shutil.rmtree(R, ignore_errors=True)
@@ -1701,6 +1710,117 @@ def declared_urls(ctx: Ctx, drv: Optional[Driver], R: str, mats: dict, full: boo
 
 
 # ----------------------------------------------------------------------------------------------
+# (2d) schema documents fetched through an xsi:schemaLocation hint of an INSTANCE (use_location_hints=True)
+# ----------------------------------------------------------------------------------------------
+HINT_PAYLOADS = {
+    'internal': ('<!DOCTYPE xs:schema [<!ENTITY n "' + MARK + '">]>', '&n;'),
+    'external': ('<!DOCTYPE xs:schema [<!ENTITY n SYSTEM "file://{R}/secret.txt">]>', 'HINTED' + MARK),
+    'parameter': ('<!DOCTYPE xs:schema [<!ENTITY % p "<!-- c -->"> %p;]>', 'HINTED' + MARK),
+    'extsubset': ('<!DOCTYPE xs:schema SYSTEM "' + HOST + '/ext.dtd">', 'HINTED' + MARK),
+    'clean': ('', 'HINTEDCLEAN'),
+}
+HINT_TNS = 'urn:c13:hint:own'
+HINT_STOPPED: list = []     # a failing input was met in this process: the shared meta-schema registry may be polluted
+
+
+def hint_case(ctx: Ctx, R: str, case: dict) -> bool:
+    """one instance validated with use_location_hints=True whose root / child / grandchild carries a hint for a
+    namespace (new, the schema's own, or one owned by the meta-schema registry) pointing to a schema document
+    that declares an entity.  Direct reading of the property: when defusing applies to the hinted document it is
+    either never opened or refused with XMLResourceForbidden; it is never parsed / loaded.  Returns False on failure."""
+    import xmlschema
+    from xmlschema.exceptions import XMLResourceForbidden, XMLSchemaException
+    cls = getattr(xmlschema, case['cls'])
+    mode, pos, where, pay, nsk = case['mode'], case['at'], case['where'], case['payload'], case['ns']
+    ns = {'new': 'urn:c13:hint:new', 'own': HINT_TNS}.get(nsk, nsk)
+    prolog, name = HINT_PAYLOADS[pay]
+    fname = f'hinted_{pay}.xsd'
+    doc = ('<?xml version="1.0"?>\n' + prolog.replace('{R}', R) + f'\n<xs:schema xmlns:xs="{XS}" targetNamespace="{ns}">'
+           f'<xs:attribute name="{name}" type="xs:string"/></xs:schema>').encode()
+    with open(os.path.join(R, fname), 'wb') as f:
+        f.write(doc)
+    Obs.table['/' + fname] = doc
+    url = ('file://' + R + '/' + fname) if where == 'file' else HOST + '/' + fname
+    does_apply = applies(mode, os.path.dirname(url))
+    xsd = (f'<xs:schema xmlns:xs="{XS}" targetNamespace="{HINT_TNS}" xmlns:t="{HINT_TNS}" elementFormDefault="qualified">'
+           '<xs:element name="root"><xs:complexType><xs:sequence><xs:element name="child"><xs:complexType><xs:sequence>'
+           '<xs:element name="leaf" type="xs:string"/></xs:sequence></xs:complexType></xs:element>'
+           '</xs:sequence></xs:complexType></xs:element></xs:schema>')
+    h = f' xsi:schemaLocation="{ns} {url}"'
+    inst = (f'<root xmlns="{HINT_TNS}" xmlns:xsi="http://www.w3.org/2001/XMLSchema-instance"{h if pos == "root" else ""}>'
+            f'<child{h if pos == "child" else ""}><leaf{h if pos == "leaf" else ""}>x</leaf></child></root>')
+    with warnings.catch_warnings():
+        warnings.simplefilter('ignore')
+        schema = cls(xsd, defuse=mode)
+    out: dict[str, Any] = {'outcome': 'validated', 'exc': None}
+    Obs.opens, Obs.served, Obs.defuse_calls, Obs.seeks, Obs.trace, Obs.stack = [], [], [], [], [], []
+    Obs.resolver, Obs.requests, Obs.net = [], [], []
+    with warnings.catch_warnings():
+        warnings.simplefilter('ignore')
+        Obs.active = True
+        try:
+            out['errors'] = len(list(schema.iter_errors(inst, use_location_hints=True)))
+        except XMLResourceForbidden as e:
+            out['outcome'], out['exc'] = 'forbidden', type(e).__name__
+        except (XMLSchemaException, ET.ParseError, OSError) as e:
+            out['outcome'], out['exc'], out['msg'] = 'error', type(e).__name__, str(e)[:80]
+        except Exception as e:          # noqa
+            out['outcome'], out['exc'], out['msg'] = 'FOREIGN', type(e).__name__, str(e)[:80]
+        finally:
+            Obs.active = False
+    tr = [t for t in Obs.trace if str(t[1] or '').endswith('/' + fname)]
+    out['trace'] = [t[0] if t[0] != 'scanned' else 'scanned:' + t[2]['result'] for t in tr]
+    regs = {'schema': schema.maps, 'meta': cls.meta_schema.maps}
+    out['loaded'] = sorted(k for k, m in regs.items() if any((s.url or '').endswith('/' + fname) for s in m.schemas))
+    out['names'] = sorted(k for k, m in regs.items() if any(MARK in n or 'HINTEDCLEAN' in n for n in list(m.attributes)))
+    out['secret'] = [p_ for p_ in Obs.opens if p_.endswith('secret.txt')]
+    out['ext'] = [u for u in Obs.served if u.endswith('/ext.dtd')]
+    out['resolver'], out['net'] = list(Obs.resolver), list(Obs.net)
+    opened = bool(tr)
+    ctx.case(case, opened, tag='hint')
+    ctx.count('hint:' + ('ignored' if not opened else out['outcome']) + (':applies' if does_apply else ':free'))
+    n0 = len(ctx.failures)
+    if out['outcome'] == 'FOREIGN':
+        ctx.failure('a non-library exception escaped', case, out)
+    if does_apply and pay != 'clean':
+        if 'parsed' in out['trace'] or out['loaded'] or out['names']:
+            ctx.failure('a schema document that declares an entity / external subset, fetched through an xsi:schemaLocation '
+                        'hint of an instance, was parsed although defusing applies to it', case, out)
+        elif opened and out['outcome'] != 'forbidden':
+            ctx.failure('the hinted schema document was opened, declares an entity / external subset, and was not refused '
+                        'with XMLResourceForbidden', case, out)
+        if out['secret'] or out['ext'] or out['resolver'] or out['net']:
+            ctx.failure('an external identifier of the hinted schema document was fetched / the resolver trap fired', case, out)
+    if len(ctx.failures) == n0 and does_apply and opened and 'parsed' in out['trace'] and not any(t.startswith('scanned') for t in out['trace']):
+        ctx.failure('a hinted schema document to which defusing applies was parsed without having been scanned', case, out)
+    if pay == 'clean' and nsk in ('new', 'own') and pos != 'root' and not (out['loaded'] == ['schema'] and out['names'] == ['schema']):
+        ctx.failure('control: a clean hinted schema document for a namespace of the validating schema was not loaded '
+                    '(the family does not exercise the hint path)', case, out)
+    return len(ctx.failures) == n0
+
+
+def hint_family(ctx: Ctx, R: str, full: bool) -> None:
+    """stops at the first failing input: a wrongly loaded document may sit in the shared meta-schema registry"""
+    import xmlschema
+    if HINT_STOPPED:
+        return
+    for cname in ('XMLSchema11', 'XMLSchema10'):
+        metas = sorted(getattr(xmlschema, cname).meta_schema.maps.namespaces)
+        i = 0
+        for nsk in ['new', 'own'] + metas:
+            for pos in ('root', 'child', 'leaf'):
+                for pay in HINT_PAYLOADS:
+                    if pay == 'clean' and nsk not in ('new', 'own'):
+                        continue            # never offer a loadable document for a namespace of the shared registry
+                    i += 1
+                    combos = [(m, w) for m in ('always', 'remote', 'nonlocal') for w in ('file', 'http')]
+                    for mode, where in (combos if full else [combos[0], combos[(i % 5) + 1]]):
+                        case = {'hint': True, 'cls': cname, 'mode': mode, 'at': pos, 'where': where, 'payload': pay, 'ns': nsk}
+                        if not hint_case(ctx, R, case):
+                            HINT_STOPPED.append(case)
+                            return
+
+# ----------------------------------------------------------------------------------------------
 # (3) schema builds
 # ----------------------------------------------------------------------------------------------
 def build_payloads(R: str) -> list[tuple[str, dict]]:
@@ -2088,6 +2208,9 @@ def replay(ctx: Ctx, obj: dict) -> int:
             print('REAL CODE:', det)
             if drv is not None:
                 print('MODEL    :', drv.query([req])[0])
+        elif 'hint' in case:
+            ok_ = hint_case(ctx, R, case)
+            print('REAL CODE:', 'property holds' if ok_ else 'property violated')
         elif 'declared' in case:
             P_ = {q['name']: q for q in payloads(R, BIG)}
             dk = 'schema' if case['role'] == 'schema' else 'instance'
